@@ -10,7 +10,7 @@ from contracts.schema import TYPE_ANY
 import spec.names_spec  # noqa: F401
 import spec.parser_spec  # noqa: F401
 
-TPL = 'none|str|ref:Template'
+TPL = 'none|estr|ref:Template'
 INIT = dict(returns='none')
 
 
@@ -43,11 +43,11 @@ contract('Argument.__init__', params={'ctype': TYPE_ANY + '|list[%s]' % TYPE_ANY
          ensures=['self.ctype == (ctype[0] if isinstance(ctype, list) else ctype)', 'self.name == name', 'self.default == default',
                   'self.parent is None'], **INIT)
 contract('ArgumentList.__init__', params={'args_list': 'list[ref:Argument]'},
-         modifies=fields('args_list', 'parent') + ['heap:parent'],
+         modifies=fields('args_list', 'parent') + ['heap:parent@Argument'],
          ensures=['self.args_list == args_list', 'self.parent is None',
                   'forall(0, len(args_list), lambda j: args_list[j].parent == self)'],
          loops={0: {'inv': ['forall(0, _i, lambda j: args_list[j].parent == self)', 'self.args_list == args_list'],
-                    'modifies': ['heap:parent']}}, **INIT)
+                    'modifies': ['heap:parent@Argument']}}, **INIT)
 contract('ReturnType.__init__', params={'type1': TYPE_ANY, 'type2': 'estr|ref:Type'},
          modifies=fields('type1', 'type2', 'parent'),
          ensures=['self.type1 == type1', 'self.type2 == type2', 'self.parent is None'], **INIT)
@@ -126,6 +126,7 @@ contract('Class.Members.__init__', params={'members': 'list[%s]' % MEMBER_ANY},
 C01_KEYS += ['Class.Members.__init__']
 
 PARENTED = ['ctors', 'methods', 'static_methods', 'dunder_methods', 'properties']
+PARENT_FAM = ['Constructor', 'Method', 'StaticMethod', 'DunderMethod', 'Variable']
 CLS_PARAMS = {'template': TPL, 'is_virtual': 'str', 'name': 'nestr',
               'parent_class': 'estr|list[ref:Typename|ref:TemplatedType]|ref:Typename|ref:TemplatedType',
               'ctors': 'list[ref:Constructor]', 'methods': 'list[ref:Method]', 'static_methods': 'list[ref:StaticMethod]',
@@ -134,7 +135,8 @@ CLS_PARAMS = {'template': TPL, 'is_virtual': 'str', 'name': 'nestr',
 contract('Class.__init__', params=CLS_PARAMS,
          requires=['(len(parent_class) >= 1) if isinstance(parent_class, list) else True'],
          modifies=fields('template', 'is_virtual', 'name', 'parent_class', 'ctors', 'methods', 'static_methods', 'dunder_methods',
-                         'properties', 'operators', 'enums', 'parent') + ['heap:parent'],
+                         'properties', 'operators', 'enums', 'parent')
+         + ['heap:parent@Constructor', 'heap:parent@Method', 'heap:parent@StaticMethod', 'heap:parent@DunderMethod', 'heap:parent@Variable'],
          raises={'ValueError': 'exists(0, len(ctors), lambda j: ctors[j].name != name)'},
          ensures=['self.template == template', 'self.is_virtual == is_virtual', 'self.name == name',
                   "implies(isinstance(parent_class, str), self.parent_class == '')",
@@ -149,7 +151,7 @@ contract('Class.__init__', params=CLS_PARAMS,
          loops=dict([(0, {'inv': ['forall(0, _i, lambda j: ctors[j].name == name)']})] + [
              (k + 1, {'inv': ['self.parent == parent', 'forall(0, _i, lambda j: self.%s[j].parent == self)' % a]
                              + ['forall(0, len(self.%s), lambda j: self.%s[j].parent == self)' % (b, b) for b in PARENTED[:k]],
-                      'modifies': ['heap:parent']}) for k, a in enumerate(PARENTED)]), **INIT)
+                      'modifies': ['heap:parent@' + PARENT_FAM[k]]}) for k, a in enumerate(PARENTED)]), **INIT)
 C01_KEYS += ['Class.__init__']
 
 NODE = 'ref:Class|ref:GlobalFunction|ref:Enum|ref:Include|ref:ForwardDeclaration|ref:TypedefTemplateInstantiation|ref:Variable|ref:Namespace'
